@@ -311,6 +311,25 @@ def inject(draw_ints, sim, kind):
         else:
             sim.write(dd, text)
         return desc
+    if kind == 'dyndep_chain_cycle':
+        # two dyndep files, the second made from an output of a statement X bound to the first: when the first file is loaded
+        # mid-build it gives X an input that a statement bound to the *second* file produces - X -> b -> second file -> X, a
+        # cycle through a statement whose own dyndep file is still pending (and can never be built)
+        if not g.get('dd_chained'):
+            return None
+        pe1 = sim.edge_by_key('dd1')
+        pe0 = sim.edge_by_key('dd0')
+        X = [e for e in cmds if e.get('dd') == 'dd0' and e['outs'][0] in pe1['exp']]
+        bs = [e for e in cmds if e.get('dd') == 'dd1']
+        if not X or not bs or pe0 is None:
+            return None
+        X, f = X[0], bs[b % len(bs)]
+        X['dd_ins'] = list(X.get('dd_ins', [])) + [all_outs(f)[0]]
+        pe0['content_override'] = {'dd0': dict(by='', table={}, default=models.dyndep_text(g, 'dd0'))}
+        for pe in (pe0, pe1):
+            src = [i for i in pe['exp'] if i in g['srcs']][0]
+            sim.write(src, sim.new_content(src, 5))       # both producers are dirty: both files are loaded mid-build
+        return dict(kind=kind, edge=key(X), gets_input=all_outs(f)[0], mid_build=True)
     if kind == 'validation_back':
         # acyclic control: a statement validates something that depends on it
         pairs = [(sim.edge_by_key(ek), f) for f in cmds for ek in simrun.transitive_producers(g, f, {})]
@@ -416,6 +435,9 @@ def gen_worker(widx, n_examples, focus=None):
         # the general family: a bound statement, an upstream plain-source consumer, a produced file)
         feats = dict(unordered_hidden=False, dyndep='some') if focus is None else dict(unordered_hidden=False, dyndep=True, deps=False, rsp=False, pools=False)
         kinds = KINDS if focus is None else ['dyndep_in_cycle', 'dyndep_out_cycle', 'dyndep_out_cycle']
+        if focus == 'chain':
+            feats = dict(feats, dd_force_chain=True)
+            kinds = ['dyndep_chain_cycle', 'dyndep_chain_cycle', 'dyndep_in_cycle']
 
         @hseed(common.sub_seed(PROP, widx, focus or ''))
         @settings(max_examples=n_examples, deadline=None, database=None, suppress_health_check=list(HealthCheck),
@@ -484,7 +506,7 @@ def run(tier):
                       "exhaustive: every graph of 2 statements over 3 files (thorough: 4 files) where each statement may name every other file and itself as explicit / implicit / "
                       "order-only input or validation and every graph of 3 statements over 3 files with explicit / order-only inputs, every single target; generated: "
                       "graphs up to 7 statements with a short history, then one injection (manifest cycle through an explicit, implicit or order-only input of "
-                      "any length incl. length one, cycle closed by a depfile, by the deps log when a recorded header becomes an output, by a dyndep file (added input, or added output that an upstream statement consumes; file present at scan time or produced mid-build), phony self-reference "
+                      "any length incl. length one, cycle closed by a depfile, by the deps log when a recorded header becomes an output, by a dyndep file (added input, or added output that an upstream statement consumes; with two files chained, through a statement whose own file is still pending; file present at scan time or produced mid-build), phony self-reference "
                       "in both -w modes, or the acyclic control 'validation depends on its requester'), judged for every single target and for all targets. "
                       "Oracle: reference DFS on the needed closure; the printed cycle is checked hop by hop. Non-trivial = the requested closure is cyclic.",
                       ["for a cycle that appears when a dyndep file is loaded mid-build, statements that were started before the load cannot be held back; none may start after it"])
@@ -499,7 +521,8 @@ def run(tier):
     ck.extra_cov['exhaustive_small_graphs'] = not res.failures
     ck.extra_cov['small_graph_invocations'] = res.evaluations
     r2 = common.run_workers(gen_worker, [(w, (6000 if thorough else 250)) for w in range(common.NCPU)] +
-                            [(w, (4000 if thorough else 200), 'dyndep') for w in range(common.NCPU)])
+                            [(w, (4000 if thorough else 200), 'dyndep') for w in range(common.NCPU)] +
+                            [(w, (1500 if thorough else 80), 'chain') for w in range(common.NCPU)])
     ck.merge(r2)
     for f in res.failures + r2.failures:
         if f.get('harness_error'):
